@@ -453,7 +453,7 @@ func c18ConcChildMain(args []string) int {
 			}
 			if res.wire != nil {
 				det["bytes_on_the_wire_equal_the_single_goroutine_encoding"] = bytes.Equal(res.wire, res.ss.Solo)
-				n := minInt(len(res.wire), len(res.ss.Solo))
+				n := c18MinInt(len(res.wire), len(res.ss.Solo))
 				for i := 0; i <= n; i++ {
 					if i == n || res.wire[i] != res.ss.Solo[i] {
 						det["first_differing_offset"] = i
@@ -705,7 +705,7 @@ func runC18Conc(e *Env) {
 		default:
 			R.Eval()
 			R.Violate("concurrent/"+f[1]+":crash", fmt.Sprintf("the process died while %s sessions were encoding/decoding at overlapping times (%s stream): %s", strings.TrimPrefix(f[2], "G="), f[1], first),
-				map[string]any{"case_index": f[0], "mode": f[1], "concurrent_sessions": f[2], "round": f[3]}, map[string]any{"stderr_head": string(errTail[:minInt(len(errTail), 3000)])})
+				map[string]any{"case_index": f[0], "mode": f[1], "concurrent_sessions": f[2], "round": f[3]}, map[string]any{"stderr_head": string(errTail[:c18MinInt(len(errTail), 3000)])})
 		}
 		R.Require(len(R.Violations) > 0, "the concurrent-sessions process produced no report")
 		return
